@@ -39,7 +39,9 @@ verus! {
 /// `String` / `&str` values of the tool (output name, --output-type, chromosome names, file names): opaque,
 /// observed through the sequence of its chars
 #[verifier::external_body]
-pub struct Str { _s: String }
+pub struct Str { _p: u8 }
+/// edits that spell the type out (`let mut prev = String::new();`) resolve to the shim
+pub type String = Str;
 /// `String::to_lowercase`: uninterpreted in general (Unicode tables, context dependent sigma) ...
 pub uninterp spec fn lower(s: Seq<char>) -> Seq<char>;
 /// ... but an ASCII tail is lower-cased char by char whatever precedes it
@@ -59,6 +61,11 @@ pub proof fn axiom_lower_ascii_tail(p: Seq<char>, t: Seq<char>)
 {}
 impl Str {
     pub uninterp spec fn view(&self) -> Seq<char>;
+    #[verifier::external_body]
+    pub fn new() -> (r: Str) ensures r@ == Seq::<char>::empty() { unimplemented!() }
+    /// `"literal".to_owned()` / `.to_string()` (see the //@sub)
+    #[verifier::external_body]
+    pub fn lit(s: &str) -> (r: Str) ensures r@ == s@ { unimplemented!() }
     #[verifier::external_body]
     pub fn to_lowercase(&self) -> (r: Str) ensures r@ == lower(self@) { unimplemented!() }
     /// `str::ends_with(&str)`
@@ -152,6 +159,7 @@ spec fn chosen(output_type: Option<Str>, output: Seq<char>) -> Option<OutputType
 /// the documented spellings are endings in the sense of `bigwig_ending` / `bedgraph_ending`
 pub proof fn lemma_documented_names(output: Seq<char>)
     ensures
+        [[L: lemma/documented_spellings_are_endings_after_lower_casing]]
         documented_bigwig_name(output) ==> bigwig_ending(output),
         documented_bedgraph_name(output) ==> bedgraph_ending(output),
 {
@@ -193,6 +201,7 @@ pub proof fn lemma_exclusive(x: Seq<char>)
 /// a type given in any letter case of `bigwig` / `bedgraph` lower-cases to that word (ASCII only)
 pub proof fn lemma_type_words(t: Seq<char>)
     ensures
+        [[L: lemma/type_word_in_any_ascii_letter_case_lower_cases_to_the_word]]
         is_ascii(t) && ascii_lower(t) == "bigwig"@ ==> lower(t) == "bigwig"@,
         is_ascii(t) && ascii_lower(t) == "bedgraph"@ ==> lower(t) == "bedgraph"@,
 {
@@ -311,7 +320,7 @@ impl BigWigRead {
 //@ret r
 //@sig
         ensures
-            [[L: with_info/pairs_the_cached_info_with_the_reopened_file]]
+            [[L: pairs_the_cached_info_with_the_reopened_file]]
             r.info == info && r.read == read,
 //@end
     /// ASSUMED (proved in unit query_glue, labels bw_get_move/..): the iterator runs on the chromosome with the
@@ -425,23 +434,50 @@ pub open spec fn queries(bws: Seq<(Info, Path)>, chrom: Seq<char>, start: u32, e
     Seq::new(bws.len(), |i: int| Query { info: bws[i].0, path: bws[i].1, chrom, start, end })
 }
 pub open spec fn file_srcs(qs: Seq<Query>) -> Seq<Src> { Seq::new(qs.len(), |i: int| Src::File(qs[i])) }
-pub open spec fn cat(ss: Seq<Seq<Query>>) -> Seq<Query>
-    decreases ss.len()
-{
-    if ss.len() == 0 { Seq::empty() } else { cat(ss.drop_last()) + ss.last() }
-}
 /// the file queries a stream is ultimately made of, left to right
 pub open spec fn leaves(s: Src) -> Seq<Query>
-    decreases s
+    decreases s, 0nat
 {
-    match s {
-        Src::File(q) => seq![q],
-        Src::Replay(d) => cat(Seq::new(d.parts.len(), |i: int| if 0 <= i < d.parts.len() { leaves(d.parts[i]) } else { Seq::empty() })),
-    }
+    match s { Src::File(q) => seq![q], Src::Replay(d) => kids(d, d.parts.len()) }
 }
-pub open spec fn flat(ps: Seq<Src>) -> Seq<Query> { cat(Seq::new(ps.len(), |i: int| leaves(ps[i]))) }
-/// a partial merge must be a plain per-base sum: no clip, no adjustment (and a threshold that drops nothing)
-pub uninterp spec fn keeps_everything(threshold: f32) -> bool;
+pub open spec fn kids(d: MVDesc, n: nat) -> Seq<Query>
+    decreases d, n
+{
+    if n == 0 || n > d.parts.len() { Seq::empty() } else { kids(d, (n - 1) as nat) + leaves(d.parts[n - 1]) }
+}
+pub open spec fn flat_n(ps: Seq<Src>, n: nat) -> Seq<Query>
+    decreases n
+{
+    if n == 0 || n > ps.len() { Seq::empty() } else { flat_n(ps, (n - 1) as nat) + leaves(ps[n - 1]) }
+}
+pub open spec fn flat(ps: Seq<Src>) -> Seq<Query> { flat_n(ps, ps.len()) }
+// ---- f32 constants (rule R12c covers f64 only; same device: getter + distinct uninterpreted spec constant) ----
+pub uninterp spec fn spec_f32_neg_infinity() -> f32;
+pub uninterp spec fn spec_f32_infinity() -> f32;
+pub uninterp spec fn spec_f32_max() -> f32;
+pub uninterp spec fn spec_f32_min() -> f32;
+pub uninterp spec fn spec_f32_nan() -> f32;
+#[verifier::external_body] pub fn fconst_f32_neg_infinity() -> (r: f32) ensures r == spec_f32_neg_infinity() { f32::NEG_INFINITY }
+// what an edit might write instead: unrelated constants (judged, not rejected)
+#[verifier::external_body] pub fn fconst_f32_infinity() -> (r: f32) ensures r == spec_f32_infinity() { f32::INFINITY }
+#[verifier::external_body] pub fn fconst_f32_max() -> (r: f32) ensures r == spec_f32_max() { f32::MAX }
+#[verifier::external_body] pub fn fconst_f32_min() -> (r: f32) ensures r == spec_f32_min() { f32::MIN }
+#[verifier::external_body] pub fn fconst_f32_nan() -> (r: f32) ensures r == spec_f32_nan() { f32::NAN }
+/// the strict `v.value > threshold` test of the `.filter(..)` closure of `MergingValues::new` (unit mv_adjust:
+/// `kept_iff_strictly_above_threshold`, same uninterpreted predicate)
+pub uninterp spec fn fgt32(a: f32, b: f32) -> bool;
+/// x is a value the k-way merge can emit (a per-base sum of the inputs' values)
+pub uninterp spec fn merge_value(x: f32) -> bool;
+/// a threshold that drops nothing the merge emits
+pub open spec fn keeps_everything(threshold: f32) -> bool { forall|x: f32| #[trigger] merge_value(x) ==> fgt32(x, threshold) }
+/// THE float assumption of this unit, on the comparison shim: every value the k-way merge emits compares
+/// strictly greater than -infinity, i.e. the merge never emits -infinity or NaN (true for finite inputs whose
+/// per-base sums stay finite; an input that stores -inf/NaN, or sums that overflow f32, are outside it)
+#[verifier::external_body]
+pub proof fn axiom_merge_values_exceed_neg_infinity()
+    ensures forall|x: f32| #[trigger] merge_value(x) ==> fgt32(x, spec_f32_neg_infinity()),
+{}
+/// a partial merge must be a plain per-base sum: no clip, no adjustment, a threshold that drops nothing
 pub open spec fn plain(s: Src) -> bool
     decreases s
 {
@@ -452,12 +488,31 @@ pub open spec fn plain(s: Src) -> bool
     }
 }
 pub open spec fn all_plain(ps: Seq<Src>) -> bool { forall|i: int| 0 <= i < ps.len() ==> plain(#[trigger] ps[i]) }
+pub proof fn lemma_kids(d: MVDesc, n: nat)
+    requires n <= d.parts.len()
+    ensures kids(d, n) == flat_n(d.parts, n)
+    decreases n
+{
+    if n > 0 { lemma_kids(d, (n - 1) as nat); }
+}
+pub proof fn lemma_flat_prefix(ps: Seq<Src>, qs: Seq<Src>, n: nat)
+    requires n <= ps.len(), n <= qs.len(), ps.subrange(0, n as int) == qs.subrange(0, n as int)
+    ensures flat_n(ps, n) == flat_n(qs, n)
+    decreases n
+{
+    if n > 0 {
+        assert(ps.subrange(0, n - 1) =~= ps.subrange(0, n as int).subrange(0, n - 1));
+        assert(qs.subrange(0, n - 1) =~= qs.subrange(0, n as int).subrange(0, n - 1));
+        lemma_flat_prefix(ps, qs, (n - 1) as nat);
+        assert(ps[n - 1] == ps.subrange(0, n as int)[n - 1]);
+        assert(qs[n - 1] == qs.subrange(0, n as int)[n - 1]);
+    }
+}
 pub proof fn lemma_flat_push(ps: Seq<Src>, s: Src)
     ensures flat(ps.push(s)) == flat(ps) + leaves(s)
 {
-    let a = Seq::new(ps.push(s).len(), |i: int| leaves(ps.push(s)[i]));
-    assert(a.drop_last() =~= Seq::new(ps.len(), |i: int| leaves(ps[i])));
-    assert(a.last() == leaves(s));
+    assert(ps.push(s).subrange(0, ps.len() as int) =~= ps.subrange(0, ps.len() as int));
+    lemma_flat_prefix(ps.push(s), ps, ps.len());
 }
 pub proof fn lemma_flat_concat(a: Seq<Src>, b: Seq<Src>)
     ensures flat(a + b) == flat(a) + flat(b)
@@ -465,7 +520,6 @@ pub proof fn lemma_flat_concat(a: Seq<Src>, b: Seq<Src>)
 {
     if b.len() == 0 {
         assert(a + b =~= a);
-        assert(flat(b) =~= Seq::<Query>::empty());
         assert(flat(a) + flat(b) =~= flat(a));
     } else {
         lemma_flat_concat(a, b.drop_last());
@@ -492,11 +546,7 @@ pub proof fn lemma_flat_files(qs: Seq<Query>)
 pub proof fn lemma_leaves_replay(d: MVDesc)
     ensures leaves(Src::Replay(d)) == flat(d.parts)
 {
-    let a = Seq::new(d.parts.len(), |i: int| if 0 <= i < d.parts.len() { leaves(d.parts[i]) } else { Seq::empty() });
-    let b = Seq::new(d.parts.len(), |i: int| leaves(d.parts[i]));
-    assert(a =~= b);
-    assert(leaves(Src::Replay(d)) == cat(a));
-    assert(flat(d.parts) == cat(b));
+    lemma_kids(d, d.parts.len());
 }
 
 // (2b-i) the two per-file closures `|b| { .. }` (chunked branch first, few-files branch second), carved into
@@ -537,6 +587,898 @@ pub fn collect_streams(bws: &Vec<(Info, Path)>, chrom: &Str, size: u32, many: bo
     }
     Ok(out)
 }
+
+// (2b-ii) the per-chromosome closure `move |(chrom, (size, bws))| { .. }` handed to `chrom_sizes.into_iter().map(..)`.
+// STRUCTURAL (R11): each `bws.into_iter().map(|b| {..}).collect::<Result<Vec<_>, _>>()?` becomes
+// `collect_streams(&bws, &chrom, size, many)?` (verified above; the closure bodies are (2b-i)).
+//@extract fn bigtools/src/utils/cli/bigwigmerge.rs get_merged_vals
+//@presub /\A.*?let iter = chrom_sizes\.into_iter\(\)\.map\(move \|\(chrom, \(size, bws\)\)\| \{\n(.*)\n    \}\);\s*Ok\(\(iter, chrom_map\)\)\s*\}\s*\Z/ => fn per_chrom(chrom: Str, size: u32, bws: Vec<(Info, Path)>, max_bw_fds: usize, threshold: f32, adjust: Option<f32>, clip: Option<f32>) -> Result<(Str, u32, MergingValues), MergingValuesError> {\n\1\n} min=1 count=1
+//@sub /bws\s*\.into_iter\(\)\s*\.map\(\|b\| \{.*?\n[ \t]*\}\)\s*\.collect::<Result<Vec<_>, \w+>>\(\)\?;/ => collect_streams(&bws, &chrom, size, true)?; min=1 count=1
+//@sub /bws\s*\.into_iter\(\)\s*\.map\(\|b\| \{.*?\n[ \t]*\}\)\s*\.collect::<Result<Vec<_>, \w+>>\(\)\?;/ => collect_streams(&bws, &chrom, size, false)?; min=1 count=1
+//@sub /Vec<Box<dyn Iterator<Item = Result<Value, MergingValuesError>> \+ Send>>/ => Vec<Stream> min=0
+//@sub /: Vec<_> = collect_streams/ => : Vec<Stream> = collect_streams min=0
+//@sub /merges\.into_iter\(\)\.peekable\(\)/ => PeekStreams::of(merges) min=0
+//@sub /vals\.by_ref\(\)\.take\(([^()]*)\)\.collect::<Vec<_>>\(\)/ => vals.take_n(\1) min=0
+//@sub /\bf32::NEG_INFINITY\b/ => fconst_f32_neg_infinity() min=0
+//@sub /\bf32::INFINITY\b/ => fconst_f32_infinity() min=0
+//@sub /\bf32::MAX\b/ => fconst_f32_max() min=0
+//@sub /\bf32::MIN\b/ => fconst_f32_min() min=0
+//@sub /\bf32::NAN\b/ => fconst_f32_nan() min=0
+//@sub /let \(sender, receiver\)/ => let (mut sender, receiver) min=0
+//@sub /Box::new\(receiver\.into_iter\(\)\.map\(Result::Ok\)\)/ => replay(sender, receiver, Ghost(mergingvalues.iter.desc())) min=0
+//@ret r
+//@sig
+    requires
+        // the chunked branch divides by it, and regrouping only shrinks the list for groups of >= 2
+        // (established for the tool's constants by `fd_budget` below)
+        max_bw_fds >= 2,
+    ensures
+        [[L: name_and_size_are_passed_on]]
+        r matches Ok(t) ==> t.0@ == chrom@ && t.1 == size,
+        [[L: every_file_contributes_its_whole_chromosome_query_exactly_once_in_order]]
+        r matches Ok(t) ==> flat(t.2.iter.desc().parts) == queries(bws@, chrom@, 0, size),
+        [[L: final_merge_gets_threshold_adjust_clip_in_that_order]]
+        r matches Ok(t) ==> t.2.iter.desc().threshold == threshold && t.2.iter.desc().adjust == adjust && t.2.iter.desc().clip == clip,
+        [[L: few_files/one_merge_over_the_file_streams]]
+        r matches Ok(t) ==> (bws@.len() <= max_bw_fds ==> t.2.iter.desc().parts == file_srcs(queries(bws@, chrom@, 0, size))),
+        [[L: merged_stream_is_fresh]]
+        r matches Ok(t) ==> t.2.iter.rest() == mv_out(t.2.iter.desc()),
+        [[L: chunked/partial_merges_are_plain_sums]]
+        r matches Ok(t) ==> all_plain(t.2.iter.desc().parts),
+//@open
+    let ghost qs = queries(bws@, chrom@, 0, size);
+    proof { lemma_flat_files(qs); }
+//@at /let mut merges: Vec<Stream> = collect_streams/ after
+            proof { assert(srcs(merges@) =~= file_srcs(qs)); }
+//@at /let iters: Vec<Stream> = collect_streams/ after
+            proof { assert(srcs(iters@) =~= file_srcs(qs)); }
+//@loop 1
+                invariant
+                    [[L: chunked/loop/every_level_is_made_of_all_queries_in_order]]
+                    flat(srcs(merges@)) == qs,
+                    max_bw_fds >= 2,
+                    [[L: chunked/loop/partial_merges_are_plain_sums]]
+                    all_plain(srcs(merges@)),
+                decreases
+                    [[L: chunked/loop/termination_each_level_is_shorter]]
+                    merges@.len(),
+//@at /let len = merges\.len\(\);/ after
+                    let ghost level = srcs(merges@);
+                    proof { assert(len as int / max_bw_fds as int <= len as int / 2) by (nonlinear_arith) requires max_bw_fds >= 2, len >= 0; }
+//@loop 2
+                        invariant
+                            [[L: chunked/regroup/done_plus_pending_is_the_level]]
+                            flat(srcs(merges@)) + flat(vals.rest()) == qs,
+                            max_bw_fds >= 2, len >= 3, len == level.len(),
+                            vals.rest().len() <= len,
+                            [[L: chunked/regroup/groups_of_at_least_two_except_the_last]]
+                            2 * merges@.len() + vals.rest().len() <= len || (vals.rest().len() == 0 && 2 * merges@.len() <= len + 1),
+                            [[L: chunked/regroup/partial_merges_are_plain_sums]]
+                            all_plain(srcs(merges@)), all_plain(vals.rest()),
+                        decreases
+                            [[L: chunked/regroup/termination_each_group_consumes_a_stream]]
+                            vals.rest().len(),
+//@at /let chunk = vals\.take_n/ before
+                        let ghost pending = vals.rest();
+                        let ghost done = srcs(merges@);
+//@at /let chunk = vals\.take_n/ after
+                        proof {
+                            [[L: chunked/regroup/a_group_is_the_next_streams_and_nothing_is_skipped]]
+                            assert(pending =~= srcs(chunk@) + vals.rest());
+                            lemma_flat_concat(srcs(chunk@), vals.rest());
+                        }
+//@at /let \(mut sender, receiver\)/ after
+                        let ghost d0 = mergingvalues.iter.desc();
+                        proof {
+                            let whole = mv_out(mergingvalues.iter.desc());
+                            assert(whole.subrange(0, whole.len() as int) =~= whole);
+                            assert(oks(whole.subrange(0, 0)) =~= Seq::<Value>::empty());
+                        }
+//@loop 3
+                            invariant
+                                [[L: chunked/drain/everything_read_so_far_was_sent_in_order]]
+                                mergingvalues.iter.desc() == d0,
+                                exists|j: int| 0 <= j <= mv_out(mergingvalues.iter.desc()).len()
+                                    && #[trigger] mv_out(mergingvalues.iter.desc()).subrange(j, mv_out(mergingvalues.iter.desc()).len() as int) == mergingvalues.iter.rest()
+                                    && all_ok(mv_out(mergingvalues.iter.desc()).subrange(0, j))
+                                    && sender.sent() == oks(mv_out(mergingvalues.iter.desc()).subrange(0, j)),
+                                sender.chan() == receiver.chan(),
+                            ensures
+                                [[L: chunked/drain/the_partial_merge_is_read_to_its_end]]
+                                mergingvalues.iter.rest().len() == 0,
+                            decreases
+                                [[L: chunked/drain/termination]]
+                                mergingvalues.iter.rest().len(),
+//@at /let val = match mergingvalues\.iter\.next\(\) \{/ before
+                            let ghost whole = mv_out(mergingvalues.iter.desc());
+                            let ghost j0 = choose|j: int| 0 <= j <= whole.len() && #[trigger] whole.subrange(j, whole.len() as int) == mergingvalues.iter.rest()
+                                && all_ok(whole.subrange(0, j)) && sender.sent() == oks(whole.subrange(0, j));
+                            let ghost sent0 = sender.sent();
+//@at /sender\.send\(val\)/ after
+                            proof {
+                                assert(whole.subrange(j0, whole.len() as int)[0] == whole[j0]);
+                                assert(whole.subrange(j0, whole.len() as int).drop_first() =~= whole.subrange(j0 + 1, whole.len() as int));
+                                assert(whole.subrange(0, j0 + 1) =~= whole.subrange(0, j0).push(whole[j0]));
+                                assert(oks(whole.subrange(0, j0 + 1)) =~= oks(whole.subrange(0, j0)).push(val));
+                            }
+//@at /merges\.push\(replay\(/ before
+                        proof {
+                            let whole = mv_out(mergingvalues.iter.desc());
+                            let j = choose|j: int| 0 <= j <= whole.len() && #[trigger] whole.subrange(j, whole.len() as int) == mergingvalues.iter.rest()
+                                && all_ok(whole.subrange(0, j)) && sender.sent() == oks(whole.subrange(0, j));
+                            assert(whole.subrange(j, whole.len() as int).len() == 0);
+                            assert(whole.subrange(0, j) =~= whole);
+                        }
+//@at /merges\.push\(replay\(/ after
+                        proof {
+                            let d = d0;
+                            assert(d.parts == srcs(chunk@));
+                            axiom_merge_values_exceed_neg_infinity();
+                            assert(srcs(merges@) =~= done.push(Src::Replay(d)));
+                            lemma_flat_push(done, Src::Replay(d));
+                            lemma_leaves_replay(d);
+                            assert forall|i: int| 0 <= i < d.parts.len() implies plain(#[trigger] d.parts[i]) by { assert(d.parts[i] == pending[i]); }
+                            assert forall|i: int| 0 <= i < vals.rest().len() implies plain(#[trigger] vals.rest()[i]) by { assert(vals.rest()[i] == pending[i + chunk@.len()]); }
+                            assert((flat(done) + flat(srcs(chunk@))) + flat(vals.rest()) =~= flat(done) + (flat(srcs(chunk@)) + flat(vals.rest())));
+                        }
+//@at /let mergingvalues = MergingValues::new\(merges, / before
+            proof { assert(flat(Seq::<Src>::empty()) =~= Seq::<Query>::empty()); }
+//@end
+
+// (2c) the file-descriptor budget: the three statements `const MAX_FDS ..; const PARALLEL_CHROMS ..; let max_bw_fds ..;`
+//@extract fn bigtools/src/utils/cli/bigwigmerge.rs get_merged_vals
+//@presub /\A.*?\n([ \t]*const MAX_FDS: usize = .*?let max_bw_fds: usize = .*?;)\n.*\Z/ => fn fd_budget(max_zooms: usize) -> usize {\n\1\n    max_bw_fds\n} min=1 count=1
+//@ret r
+//@sig
+    requires
+        // the tool passes the literal 10 (checked at the call, (6) below)
+        max_zooms <= 10,
+    ensures
+        [[L: fd_budget/groups_of_at_least_two_streams]]
+        r >= 2,
+        [[L: fd_budget/chunking_starts_above_976_files_for_10_zoom_levels]]
+        max_zooms == 10 ==> r == 976,
+//@end
+
+// =====================================================================================================
+// (2a) get_merged_vals: the chromosome table (which chromosomes, which size, which files)
+// =====================================================================================================
+//@extract struct bigtools/src/bbi/bbiread.rs ChromInfo
+//@rule R8
+//@sub /name: String/ => name: Str min=1
+//@sub /#\[derive\(Clone(?:, Debug)?\)\]\n/ => "" min=0
+//@end
+/// the cached chromosome table inside a `BBIFileInfo`
+pub uninterp spec fn chroms_of(info: Info) -> Seq<ChromInfo>;
+impl BigWigRead {
+    /// `BigWigRead::chroms`: `&self.info.chrom_info`
+    #[verifier::external_body]
+    pub fn chroms(&self) -> (r: &Vec<ChromInfo>) ensures r@ == chroms_of(self.info) { unimplemented!() }
+    /// `BigWigRead::info`: `&self.info`
+    pub fn info(&self) -> (r: &Info) ensures *r == self.info { &self.info }
+    /// `BigWigRead::inner_read`: `&self.read`
+    pub fn inner_read(&self) -> (r: &ReopenableFile) ensures *r == self.read { &self.read }
+}
+/// the FIRST entry of a chromosome table, from position i on, with that name (what `.iter().find(..)` returns)
+pub open spec fn lookup_from(v: Seq<ChromInfo>, n: Seq<char>, i: int) -> Option<ChromInfo>
+    decreases v.len() - i
+{
+    if i < 0 || i >= v.len() { None } else if v[i].name@ == n { Some(v[i]) } else { lookup_from(v, n, i + 1) }
+}
+/// `V.iter().find(|v| v.name == chrom)` (closures over iterators are outside Verus: same result by a verified loop)
+pub fn find_chrom<'a>(v: &'a Vec<ChromInfo>, chrom: &Str) -> (r: Option<&'a ChromInfo>)
+    ensures
+        r matches Some(c) ==> lookup_from(v@, chrom@, 0) == Some(*c),
+        r is None ==> lookup_from(v@, chrom@, 0) is None,
+{
+    let mut i: usize = 0;
+    while i < v.len()
+        invariant i <= v.len(), lookup_from(v@, chrom@, 0) == lookup_from(v@, chrom@, i as int),
+        decreases v.len() - i,
+    {
+        if str_eq(&v[i].name, chrom) { return Some(&v[i]); }
+        i = i + 1;
+    }
+    None
+}
+/// file j has a chromosome of that name / the length it records for it
+pub open spec fn has(files: Seq<BigWigRead>, j: int, name: Seq<char>) -> bool { lookup_from(chroms_of(files[j].info), name, 0) is Some }
+pub open spec fn size_in(files: Seq<BigWigRead>, j: int, name: Seq<char>) -> u32 { lookup_from(chroms_of(files[j].info), name, 0)->Some_0.length }
+/// (cached info, path) of the files among the first n that have the chromosome, in file order
+pub open spec fn files_with(files: Seq<BigWigRead>, name: Seq<char>, n: int) -> Seq<(Info, Path)>
+    decreases n
+{
+    if n <= 0 { Seq::empty() } else if has(files, n - 1, name) { files_with(files, name, n - 1).push((files[n - 1].info, files[n - 1].read.path)) } else { files_with(files, name, n - 1) }
+}
+pub open spec fn some_has(files: Seq<BigWigRead>, name: Seq<char>) -> bool { exists|j: int| 0 <= j < files.len() && #[trigger] has(files, j, name) }
+pub open spec fn listed(names: Seq<Str>, name: Seq<char>) -> bool { exists|i: int| 0 <= i < names.len() && (#[trigger] names[i])@ == name }
+/// `bigwigs.iter().flat_map(BigWigRead::chroms).map(|c| c.name.clone())`, collected: ASSUMED only that it
+/// yields names of chromosomes of the inputs, and every chromosome name of every input (order, repetitions: free)
+#[verifier::external_body]
+pub fn all_names(files: &Vec<BigWigRead>) -> (r: Vec<Str>)
+    ensures
+        forall|i: int| 0 <= i < r@.len() ==> some_has(files@, (#[trigger] r@[i])@),
+        forall|j: int, name: Seq<char>| 0 <= j < files@.len() && #[trigger] has(files@, j, name) ==> listed(r@, name),
+{ unimplemented!() }
+/// `BTreeMap<String, (u32, Vec<(BBIFileInfo, PathBuf)>)>` (iteration order = name order: not used here)
+#[verifier::external_body]
+pub struct BTreeMap { _p: u8 }
+impl BTreeMap {
+    pub uninterp spec fn view(&self) -> Map<Seq<char>, (u32, Seq<(Info, Path)>)>;
+    #[verifier::external_body]
+    pub fn new() -> (r: BTreeMap) ensures r@ == Map::<Seq<char>, (u32, Seq<(Info, Path)>)>::empty() { unimplemented!() }
+    #[verifier::external_body]
+    pub fn get(&self, k: &Str) -> (r: Option<&(u32, Vec<(Info, Path)>)>)
+        ensures r is Some <==> self@.dom().contains(k@), r matches Some(v) ==> (v.0, v.1@) == self@[k@],
+    { unimplemented!() }
+    #[verifier::external_body]
+    pub fn contains_key(&self, k: &Str) -> (r: bool) ensures r == self@.dom().contains(k@) { unimplemented!() }
+    #[verifier::external_body]
+    pub fn insert(&mut self, k: Str, v: (u32, Vec<(Info, Path)>)) -> (r: Option<(u32, Vec<(Info, Path)>)>)
+        ensures final(self)@ == old(self)@.insert(k@, (v.0, v.1@)),
+    { unimplemented!() }
+}
+/// `HashMap<String, u32>` handed to the bigWig writer as the chromosome sizes
+#[verifier::external_body]
+pub struct HashMap { _p: u8 }
+impl HashMap {
+    pub uninterp spec fn view(&self) -> Map<Seq<char>, u32>;
+    #[verifier::external_body]
+    pub fn new() -> (r: HashMap) ensures r@ == Map::<Seq<char>, u32>::empty() { unimplemented!() }
+    #[verifier::external_body]
+    pub fn insert(&mut self, k: Str, v: u32) -> (r: Option<u32>) ensures final(self)@ == old(self)@.insert(k@, v) { unimplemented!() }
+}
+/// what the table must be for one chromosome name (C15: "chromosomes missing from some inputs")
+pub open spec fn entry_ok(files: Seq<BigWigRead>, name: Seq<char>, e: (u32, Seq<(Info, Path)>)) -> bool {
+    &&& some_has(files, name)
+    &&& forall|j: int| 0 <= j < files.len() && #[trigger] has(files, j, name) ==> size_in(files, j, name) == e.0
+    &&& e.1 == files_with(files, name, files.len() as int)
+}
+pub open spec fn table_ok(files: Seq<BigWigRead>, cs: Map<Seq<char>, (u32, Seq<(Info, Path)>)>, cm: Map<Seq<char>, u32>) -> bool {
+    &&& forall|name: Seq<char>| #[trigger] cs.dom().contains(name) ==> entry_ok(files, name, cs[name])
+    &&& cm.dom() == cs.dom()
+    &&& forall|name: Seq<char>| #[trigger] cs.dom().contains(name) ==> cm[name] == cs[name].0
+}
+pub open spec fn mismatch(files: Seq<BigWigRead>) -> bool {
+    exists|i: int, j: int, name: Seq<char>| 0 <= i < files.len() && 0 <= j < files.len() && #[trigger] has(files, i, name) && #[trigger] has(files, j, name)
+        && size_in(files, i, name) != size_in(files, j, name)
+}
+
+// Carved: the two `let mut` and the `for chrom in ..` loop nest of the first block.  Frame (signature,
+// `Ok((chrom_sizes, chrom_map))`) is the template's.  STRUCTURAL (R11): the two `for` loops with `continue`
+// become index `while` loops (the index is advanced at the loop head, so `continue` keeps its meaning); the
+// adaptor chain of the outer loop becomes `all_names(&bigwigs)`.
+//@extract fn bigtools/src/utils/cli/bigwigmerge.rs get_merged_vals
+//@presub /\A.*?\n([ \t]*let mut chrom_sizes = BTreeMap::new\(\);.*?)\n\s*\(chrom_sizes, chrom_map\)\s*\};.*\Z/ => fn chrom_table(bigwigs: &Vec<BigWigRead>) -> Result<(BTreeMap, HashMap), MergingValuesError> {\n\1\n    Ok((chrom_sizes, chrom_map))\n} min=1 count=1
+//@sub /for chrom in bigwigs\s*\.iter\(\)\s*\.flat_map\(BigWigRead::chroms\)\s*\.map\(\|c\| c\.name\.clone\(\)\)\s*\{/ => let names__ = all_names(bigwigs); let mut ni__: usize = 0; while ni__ < names__.len() { let chrom = names__[ni__].clone(); ni__ = ni__ + 1; min=1 count=1
+//@sub /for w in bigwigs\.iter\(\) \{/ => let mut wi__: usize = 0; while wi__ < bigwigs.len() { let w = &bigwigs[wi__]; wi__ = wi__ + 1; min=1 count=1
+//@sub /(\w+)\.iter\(\)\.find\(\|v\| v\.name == chrom\)/ => find_chrom(\1, &chrom) min=0
+//@sub /("[^"\n]*")\.to_owned\(\)/ => Str::lit(\1) min=0
+//@ret r
+//@sig
+    ensures
+        [[L: table/every_chromosome_of_every_input_is_listed]]
+        r matches Ok(t) ==> forall|j: int, name: Seq<char>| 0 <= j < bigwigs@.len() && #[trigger] has(bigwigs@, j, name) ==> t.0@.dom().contains(name),
+        [[L: table/size_agreed_by_all_files_that_have_it_and_exactly_those_files_in_order]]
+        r matches Ok(t) ==> table_ok(bigwigs@, t.0@, t.1@),
+        [[L: table/size_mismatch_is_refused]]
+        mismatch(bigwigs@) ==> r is Err,
+        [[L: table/refused_only_for_a_size_mismatch]]
+        r is Err ==> mismatch(bigwigs@),
+//@open
+    let ghost files = bigwigs@;
+//@loop 1
+        invariant
+            [[L: table/loop/names_seen_so_far_are_listed_correctly]]
+            files == bigwigs@, ni__ <= names__@.len(),
+            forall|i: int| 0 <= i < names__@.len() ==> some_has(files, (#[trigger] names__@[i])@),
+            forall|j: int, name: Seq<char>| 0 <= j < files.len() && #[trigger] has(files, j, name) ==> listed(names__@, name),
+            forall|i: int| 0 <= i < ni__ ==> chrom_sizes@.dom().contains((#[trigger] names__@[i])@),
+            table_ok(files, chrom_sizes@, chrom_map@),
+        decreases
+            [[L: table/loop/termination]]
+            names__@.len() - ni__,
+//@loop 2
+                invariant
+                    [[L: table/files/size_and_file_list_so_far]]
+                    files == bigwigs@, wi__ <= files.len(),
+                    size is None ==> forall|j: int| 0 <= j < wi__ ==> !#[trigger] has(files, j, chrom@),
+                    size matches Some(sz) ==> (exists|j: int| 0 <= j < wi__ && #[trigger] has(files, j, chrom@))
+                        && forall|j: int| 0 <= j < wi__ && #[trigger] has(files, j, chrom@) ==> size_in(files, j, chrom@) == sz,
+                    bws@ == files_with(files, chrom@, wi__ as int),
+                decreases
+                    [[L: table/files/termination]]
+                    files.len() - wi__,
+//@at /let size = size\.unwrap\(\);/ before
+            proof {
+                let i0 = ni__ - 1;
+                assert(some_has(files, names__@[i0]@));
+            }
+            assert(size is Some); [[L: table/unwrap_cannot_panic_some_file_has_the_chromosome]]
+//@at /chrom_map\.insert\(/ after
+            proof {
+                assert(chrom_sizes@.dom() =~= chrom_map@.dom());
+            }
+//@end
+
+// =====================================================================================================
+// (3) <ChromGroupReadImpl as BBIDataSource>::process_to_bbi: the feeding protocol (twin of unit feed)
+// =====================================================================================================
+//@extract enum bigtools/src/bbi/bbiwrite.rs ProcessDataError
+//@rule R8
+//@sub /[ \t]*#\[error\([^\n]*\)\]\n/ => "" min=3
+//@sub /#\[from\] io::Error/ => IoErr
+//@sub /\(String\)/ => (Str) min=2
+//@end
+// R11: the generic parameter `SourceError: Error` is instantiated with this source's `type Error = MergingValuesError`
+//@extract enum bigtools/src/bbi/bbiwrite.rs BBIProcessError
+//@rule R8
+//@sub /[ \t]*#\[error\([^\n]*\)\]\n/ => "" min=4
+//@sub /#\[from\] io::Error/ => IoErr
+//@sub /\(String\)/ => (Str) min=2
+//@sub /<SourceError: Error>/ => "" min=1
+//@sub /SourceError\(SourceError\)/ => SourceError(MergingValuesError) min=1
+//@end
+// the conversion behind the `?` on start_processing / block_on, extracted as a free function
+//@extract method bigtools/src/bbi/bbiwrite.rs from "From<ProcessDataError> for BBIProcessError"
+//@sub /fn from\(value: ProcessDataError\) -> Self/ => fn pde_into(value: ProcessDataError) -> BBIProcessError min=1
+//@end
+
+pub type Group = Result<(Str, u32, MergingValues), MergingValuesError>;
+/// `Box<dyn Iterator<Item = Result<(String, u32, MergingValues), MergingValuesError>> + Send>`: the
+/// per-chromosome groups `get_merged_vals` hands out (the `impl Iterator` of (2)), a finite queue
+#[verifier::external_body]
+pub struct GroupIter { _p: u8 }
+impl GroupIter {
+    pub uninterp spec fn rest(&self) -> Seq<Group>;
+    #[verifier::external_body]
+    pub fn next(&mut self) -> (r: Option<Group>)
+        ensures
+            old(self).rest().len() == 0 ==> r is None && final(self).rest() == old(self).rest(),
+            old(self).rest().len() > 0 ==> r == Some(old(self).rest()[0]) && final(self).rest() == old(self).rest().drop_first(),
+    { unimplemented!() }
+}
+//@extract struct bigtools/src/utils/cli/bigwigmerge.rs ChromGroupReadImpl
+//@rule R8
+//@sub /pub iter:\s*Box<dyn Iterator<Item = Result<\(String, u32, MergingValues\), MergingValuesError>> \+ Send>,/ => pub iter: GroupIter, min=1
+//@end
+
+/// what the writer side observes (same device as unit feed)
+pub ghost enum Event {
+    Start(Seq<char>),
+    Value(Seq<char>, Value, Option<Value>),
+    Advance(Seq<char>),
+}
+pub open spec fn opt_val(o: Option<&Value>) -> Option<Value> { match o { Some(v) => Some(*v), None => None } }
+/// `start_processing: FnMut(String) -> Result<P, ProcessDataError>`, `advance: FnMut(P)`, the processor `P` and
+/// the runtime are replaced by one environment that logs every SUCCESSFUL call; `reliable()` = it never fails
+#[verifier::external_body]
+pub struct Env { _p: u8 }
+#[verifier::external_body]
+pub struct Proc { _p: u8 }
+/// the future `p.do_process(current, next)` returns: nothing happens until it is driven
+#[verifier::external_body]
+pub struct Fut { _p: u8 }
+impl Fut {
+    pub uninterp spec fn name(&self) -> Seq<char>;
+    pub uninterp spec fn val(&self) -> Value;
+    pub uninterp spec fn next(&self) -> Option<Value>;
+}
+impl Proc {
+    pub uninterp spec fn name(&self) -> Seq<char>;
+    #[verifier::external_body]
+    pub fn do_process(&mut self, val: Value, next: Option<&Value>) -> (f: Fut)
+        ensures final(self).name() == old(self).name(), f.name() == old(self).name(), f.val() == val, f.next() == opt_val(next),
+    { unimplemented!() }
+}
+impl Env {
+    pub uninterp spec fn log(&self) -> Seq<Event>;
+    pub uninterp spec fn reliable(&self) -> bool;
+    #[verifier::external_body]
+    pub fn start_processing(&mut self, chrom: Str) -> (r: Result<Proc, ProcessDataError>)
+        ensures
+            final(self).reliable() == old(self).reliable(),
+            old(self).reliable() ==> r is Ok,
+            r matches Ok(p) ==> p.name() == chrom@ && final(self).log() == old(self).log().push(Event::Start(chrom@)),
+            r is Err ==> final(self).log() == old(self).log(),
+    { unimplemented!() }
+    #[verifier::external_body]
+    pub fn advance(&mut self, p: Proc)
+        ensures final(self).reliable() == old(self).reliable(), final(self).log() == old(self).log().push(Event::Advance(p.name())),
+    { unimplemented!() }
+    /// `runtime.block_on(fut)`: the future is driven to completion on the spot
+    #[verifier::external_body]
+    pub fn block_on(&mut self, f: Fut) -> (r: Result<(), ProcessDataError>)
+        ensures
+            final(self).reliable() == old(self).reliable(),
+            old(self).reliable() ==> r is Ok,
+            r is Ok ==> final(self).log() == old(self).log().push(Event::Value(f.name(), f.val(), f.next())),
+            r is Err ==> final(self).log() == old(self).log(),
+    { unimplemented!() }
+}
+pub type Items = Seq<Result<Value, MergingValuesError>>;
+pub open spec fn items_ok(it: Items, n: int) -> bool { forall|k: int| 0 <= k < n ==> (#[trigger] it[k]) is Ok }
+/// THE FEEDING PROTOCOL: the `next` handed over with value k is the following value of the same chromosome,
+/// None at the end of the chromosome (or when the following item is an error)
+pub open spec fn nxt(it: Items, k: int) -> Option<Value> {
+    if k + 1 < it.len() && it[k + 1] is Ok { Some(it[k + 1]->Ok_0) } else { None }
+}
+/// the log after the chromosome was started and its first n values were handed over
+pub open spec fn glog(base: Seq<Event>, name: Seq<char>, it: Items, n: int) -> Seq<Event>
+    decreases n
+{
+    if n <= 0 { base.push(Event::Start(name)) } else { glog(base, name, it, n - 1).push(Event::Value(name, it[n - 1]->Ok_0, nxt(it, n - 1))) }
+}
+pub open spec fn gname(q: Seq<Group>, m: int) -> Seq<char> { q[m]->Ok_0.0@ }
+pub open spec fn gitems(q: Seq<Group>, m: int) -> Items { q[m]->Ok_0.2.iter.rest() }
+/// the log after the first m chromosome groups were processed completely: Start, every value, Advance
+pub open spec fn flog(base: Seq<Event>, q: Seq<Group>, m: int) -> Seq<Event>
+    decreases m
+{
+    if m <= 0 { base } else {
+        glog(flog(base, q, m - 1), gname(q, m - 1), gitems(q, m - 1), gitems(q, m - 1).len() as int).push(Event::Advance(gname(q, m - 1)))
+    }
+}
+/// groups 0..m are all there and error free
+pub open spec fn groups_ok(q: Seq<Group>, m: int) -> bool {
+    forall|g: int| 0 <= g < m ==> (#[trigger] q[g]) is Ok && items_ok(gitems(q, g), gitems(q, g).len() as int)
+}
+/// the log at an error return: m complete groups, then nothing, or the Start of group m and its first k values
+pub open spec fn err_shape(base: Seq<Event>, q: Seq<Group>, m: int, k: int, lg: Seq<Event>) -> bool {
+    &&& 0 <= m < q.len()
+    &&& groups_ok(q, m)
+    &&& {
+        ||| lg == flog(base, q, m)
+        ||| (q[m] is Ok && 0 <= k <= gitems(q, m).len() && items_ok(gitems(q, m), k) && lg == glog(flog(base, q, m), gname(q, m), gitems(q, m), k))
+    }
+}
+
+// What is done to the cut text (all R11): signature normalisation (generics, runtime and the two closures ->
+// `env: &mut Env`); the callables; `runtime.block_on(` -> `env.block_on(`; `CALL(..)?;` with
+// From<ProcessDataError> -> match + pde_into (the repository's From impl, extracted above).
+impl ChromGroupReadImpl {
+//@extract method bigtools/src/utils/cli/bigwigmerge.rs process_to_bbi "BBIDataSource for ChromGroupReadImpl"
+//@presub /fn process_to_bbi<.*?>\(\s*&mut self,.*?\) -> Result<\(\), BBIProcessError<Self::Error>> \{/ => fn process_to_bbi(&mut self, env: &mut Env) -> Result<(), BBIProcessError> { min=1 count=1
+//@sub /Option<Result<\(String, u32, MergingValues\), MergingValuesError>>/ => Option<Group> min=0
+//@sub /(?<![\w\.])start_processing\(/ => env.start_processing( min=0
+//@sub /(?<![\w\.])advance\(/ => env.advance( min=0
+//@sub /\bruntime\.block_on\(/ => env.block_on( min=0
+//@sub /([\w\.]+\([^;\n]*\))\?;/ => (match \1 { Ok(v__) => v__, Err(e__) => return Err(pde_into(e__)) }); min=0
+//@ret r
+//@sig
+    ensures
+        [[L: ok_means_every_group_was_fed_completely_in_order]]
+        r is Ok ==> groups_ok(old(self).iter.rest(), old(self).iter.rest().len() as int)
+            && final(env).log() == flog(old(env).log(), old(self).iter.rest(), old(self).iter.rest().len() as int),
+        [[L: ok_means_source_exhausted]]
+        r is Ok ==> final(self).iter.rest().len() == 0,
+        [[L: succeeds_when_nothing_fails]]
+        groups_ok(old(self).iter.rest(), old(self).iter.rest().len() as int) && old(env).reliable() ==> r is Ok,
+        [[L: first_error_is_returned_nothing_logged_after]]
+        r is Err ==> exists|m: int, k: int| #[trigger] err_shape(old(env).log(), old(self).iter.rest(), m, k, final(env).log()),
+        [[L: source_errors_are_reported_as_source_errors]]
+        r is Err && old(env).reliable() ==> r->Err_0 is SourceError,
+        [[L: frame]]
+        final(env).reliable() == old(env).reliable(),
+//@open
+    let ghost q = self.iter.rest();
+    let ghost log0 = env.log();
+    let ghost m: int = 0;
+    let ghost k: int = 0;
+//@loop 1
+            invariant
+                [[L: loop/groups_done_so_far]]
+                0 <= m <= q.len(), q == old(self).iter.rest(), log0 == old(env).log(),
+                self.iter.rest() == q.subrange(m, q.len() as int),
+                groups_ok(q, m),
+                env.reliable() == old(env).reliable(),
+                [[L: loop/log_is_the_protocol_of_the_groups_done]]
+                env.log() == flog(log0, q, m),
+            ensures
+                m == q.len(), self.iter.rest().len() == 0,
+            decreases
+                [[L: loop/termination_one_group_per_iteration]]
+                q.len() - m,
+//@at /let next: Option<Group> =/ before
+            proof {
+                if m < q.len() {
+                    assert(q.subrange(m, q.len() as int)[0] == q[m]);
+                    assert(q.subrange(m, q.len() as int).drop_first() =~= q.subrange(m + 1, q.len() as int));
+                    assert(err_shape(log0, q, m, 0, env.log()));
+                }
+            }
+//@at /let mut p = / before
+                    let ghost items = group.iter.rest();
+                    let ghost name = chrom@;
+                    proof { k = 0; assert(items.subrange(0, items.len() as int) =~= items); }
+//@loop 2
+                        invariant
+                            [[L: group/values_done_so_far]]
+                            0 <= k <= items.len(), 0 <= m < q.len(), q[m] is Ok, items == gitems(q, m), name == gname(q, m),
+                            group.iter.rest() == items.subrange(k, items.len() as int),
+                            items_ok(items, k), groups_ok(q, m),
+                            p.name() == name,
+                            env.reliable() == old(env).reliable(), log0 == old(env).log(), q == old(self).iter.rest(),
+                            [[L: group/log_is_start_then_each_value_with_its_successor]]
+                            env.log() == glog(flog(log0, q, m), name, items, k),
+                        ensures
+                            k == items.len(),
+                        decreases
+                            [[L: group/termination_one_value_per_iteration]]
+                            items.len() - k,
+//@at /let current_val = match group\.iter\.next\(\)/ before
+                        proof {
+                            if k < items.len() {
+                                assert(items.subrange(k, items.len() as int)[0] == items[k]);
+                                assert(items.subrange(k, items.len() as int).drop_first() =~= items.subrange(k + 1, items.len() as int));
+                                if k + 1 < items.len() { assert(items.subrange(k + 1, items.len() as int)[0] == items[k + 1]); }
+                            }
+                            assert(err_shape(log0, q, m, k, env.log()));
+                        }
+//@loopend 2
+                        proof { k = k + 1; }
+//@loopend 1
+            proof { m = m + 1; }
+//@end
+}
+
+// =====================================================================================================
+// (4) the bedGraph branch of `bigwigmerge`
+// =====================================================================================================
+/// `fmt::Arguments` made by the (shadowed) `format_args!`: an uninterpreted function of the format literal and
+/// of the argument tuple (arity and order are part of the tuple; what `{}` does to a value is not modelled)
+#[verifier::external_body]
+pub struct FmtArgs { _p: u8 }
+#[verifier::external_body]
+pub struct Line { _p: u8 }
+pub uninterp spec fn line_spec<T>(fmt: Seq<char>, args: T) -> Line;
+impl FmtArgs { pub uninterp spec fn text(&self) -> Line; }
+#[verifier::external_body]
+pub fn fmt_args<T>(fmt: &'static str, args: T) -> (r: FmtArgs)
+    ensures r.text() == line_spec(fmt@, args)
+{ unimplemented!() }
+/// `io::BufWriter<File>` on the output: on Ok exactly that text was appended (the io::Error -> Box<dyn Error>
+/// conversion of the `?` is folded in)
+#[verifier::external_body]
+pub struct TextOut { _p: u8 }
+impl TextOut {
+    pub uninterp spec fn lines(&self) -> Seq<Line>;
+    #[verifier::external_body]
+    pub fn write_fmt(&mut self, a: FmtArgs) -> (r: Result<(), AnyErr>)
+        ensures r is Ok ==> final(self).lines() == old(self).lines().push(a.text())
+    { unimplemented!() }
+}
+/// `MergingValuesError -> Box<dyn Error>` behind the two `?`
+#[verifier::external_body]
+pub fn any_err(e: MergingValuesError) -> AnyErr { unimplemented!() }
+
+/// one bedGraph line: chromosome, start, end, value, tab separated, in that order
+pub open spec fn bg_line(name: Str, v: Value) -> Line { line_spec("{}\t{}\t{}\t{}\n"@, (&name, &v.start, &v.end, &v.value)) }
+/// the text after the first n values of a group / after the first m groups (left-associated, as it is written)
+pub open spec fn bg_group(base: Seq<Line>, name: Str, it: Items, n: int) -> Seq<Line>
+    decreases n
+{
+    if n <= 0 { base } else { bg_group(base, name, it, n - 1).push(bg_line(name, it[n - 1]->Ok_0)) }
+}
+pub open spec fn bg_all(base: Seq<Line>, q: Seq<Group>, m: int) -> Seq<Line>
+    decreases m
+{
+    if m <= 0 { base } else { bg_group(bg_all(base, q, m - 1), q[m - 1]->Ok_0.0, gitems(q, m - 1), gitems(q, m - 1).len() as int) }
+}
+
+// ---- "its bedGraph and bigWig outputs agree": both are images of the SAME sequence of merged values ----
+/// the merged values of the first m groups, each with its chromosome, in order
+pub open spec fn cells_group(base: Seq<(Str, Value)>, name: Str, it: Items, n: int) -> Seq<(Str, Value)>
+    decreases n
+{
+    if n <= 0 { base } else { cells_group(base, name, it, n - 1).push((name, it[n - 1]->Ok_0)) }
+}
+pub open spec fn cells(q: Seq<Group>, m: int) -> Seq<(Str, Value)>
+    decreases m
+{
+    if m <= 0 { Seq::empty() } else { cells_group(cells(q, m - 1), q[m - 1]->Ok_0.0, gitems(q, m - 1), gitems(q, m - 1).len() as int) }
+}
+pub open spec fn as_lines(cs: Seq<(Str, Value)>) -> Seq<Line> { Seq::new(cs.len(), |i: int| bg_line(cs[i].0, cs[i].1)) }
+pub open spec fn as_rows(cs: Seq<(Str, Value)>) -> Seq<(Seq<char>, Value)> { Seq::new(cs.len(), |i: int| (cs[i].0@, cs[i].1)) }
+/// (chromosome, value) of the values handed to the bigWig writer, in log order
+pub open spec fn value_rows(lg: Seq<Event>) -> Seq<(Seq<char>, Value)>
+    decreases lg.len()
+{
+    if lg.len() == 0 { Seq::empty() } else {
+        let p = value_rows(lg.drop_last());
+        match lg.last() { Event::Value(c, v, _) => p.push((c, v)), _ => p }
+    }
+}
+proof fn lemma_rows_push(lg: Seq<Event>, e: Event)
+    ensures value_rows(lg.push(e)) == (match e { Event::Value(c, v, _) => value_rows(lg).push((c, v)), _ => value_rows(lg) })
+{
+    assert(lg.push(e).drop_last() =~= lg);
+}
+proof fn lemma_group_outputs(lb: Seq<Line>, eb: Seq<Event>, cb: Seq<(Str, Value)>, rb: Seq<(Seq<char>, Value)>, name: Str, it: Items, n: int)
+    requires 0 <= n <= it.len(), value_rows(eb) == rb + as_rows(cb),
+    ensures
+        bg_group(lb + as_lines(cb), name, it, n) == lb + as_lines(cells_group(cb, name, it, n)),
+        value_rows(glog(eb, name@, it, n)) == rb + as_rows(cells_group(cb, name, it, n)),
+    decreases n
+{
+    if n <= 0 {
+        lemma_rows_push(eb, Event::Start(name@));
+    } else {
+        lemma_group_outputs(lb, eb, cb, rb, name, it, n - 1);
+        let c = cells_group(cb, name, it, n - 1);
+        let v = it[n - 1]->Ok_0;
+        assert(as_lines(c.push((name, v))) =~= as_lines(c).push(bg_line(name, v)));
+        assert((lb + as_lines(c)).push(bg_line(name, v)) =~= lb + as_lines(c).push(bg_line(name, v)));
+        lemma_rows_push(glog(eb, name@, it, n - 1), Event::Value(name@, v, nxt(it, n - 1)));
+        assert(as_rows(c.push((name, v))) =~= as_rows(c).push((name@, v)));
+        assert((rb + as_rows(c)).push((name@, v)) =~= rb + as_rows(c).push((name@, v)));
+    }
+}
+/// bedGraph text and bigWig feed of the same groups: line i is the text of cell i, fed value i is cell i
+proof fn lemma_bedgraph_and_bigwig_outputs_agree(lb: Seq<Line>, eb: Seq<Event>, q: Seq<Group>, m: int)
+    requires 0 <= m <= q.len(),
+    ensures
+        [[L: lemma/bedgraph_lines_are_the_merged_values_in_order]]
+        bg_all(lb, q, m) == lb + as_lines(cells(q, m)),
+        [[L: lemma/bigwig_feed_is_the_same_merged_values_in_order]]
+        value_rows(flog(eb, q, m)) == value_rows(eb) + as_rows(cells(q, m)),
+    decreases m
+{
+    if m <= 0 {
+        assert(lb + as_lines(cells(q, 0)) =~= lb);
+        assert(value_rows(eb) + as_rows(cells(q, 0)) =~= value_rows(eb));
+    } else {
+        lemma_bedgraph_and_bigwig_outputs_agree(lb, eb, q, m - 1);
+        let it = gitems(q, m - 1);
+        lemma_group_outputs(lb, flog(eb, q, m - 1), cells(q, m - 1), value_rows(eb), q[m - 1]->Ok_0.0, it, it.len() as int);
+        lemma_rows_push(glog(flog(eb, q, m - 1), gname(q, m - 1), it, it.len() as int), Event::Advance(gname(q, m - 1)));
+    }
+}
+
+// Carved: the `for v in iter { .. }` loop of the BedGraph arm.  Frame (signature, `Ok(())`) is the template's.
+// STRUCTURAL (R11): `for v in iter {` -> `loop { let v = match iter.next() { Some(v__) => v__, None => break };`
+// (what `for` does with an iterator); `v?` / `Err(e)?` -> explicit match / return with the Box<dyn Error> conversion.
+//@extract fn bigtools/src/utils/cli/bigwigmerge.rs bigwigmerge
+//@presub /\A.*?let mut writer = io::BufWriter::new\(bedgraph\);\s*\n(.*)\n        \}\n    \}\s*(?:\/\/[^\n]*\s*)*Ok\(\(\)\)\s*\}\s*\Z/ => fn write_bedgraph(iter0: GroupIter, writer: &mut TextOut) -> Result<(), AnyErr> {\n    let mut iter = iter0;\n\1\n    Ok(())\n} min=1 count=1
+//@sub /for v in iter \{/ => loop { let v = match iter.next() { Some(v__) => v__, None => break }; min=1 count=1
+//@sub /= v\?;/ => = (match v { Ok(v__) => v__, Err(e__) => return Err(any_err(e__)) }); min=0
+//@sub /Err\(e\)\?,/ => return Err(any_err(e)), min=0
+//@ret r
+//@sig
+    ensures
+        [[L: bedgraph/one_line_per_merged_value_in_order_chrom_start_end_value]]
+        r is Ok ==> groups_ok(iter0.rest(), iter0.rest().len() as int)
+            && final(writer).lines() == bg_all(old(writer).lines(), iter0.rest(), iter0.rest().len() as int),
+        [[L: bedgraph/errors_of_the_merge_are_not_swallowed]]
+        !groups_ok(iter0.rest(), iter0.rest().len() as int) ==> r is Err,
+//@open
+    let ghost q = iter0.rest();
+    let ghost lines0 = writer.lines();
+    let ghost m: int = 0;
+    let ghost k: int = 0;
+//@loop 1
+        invariant
+            [[L: bedgraph/loop/groups_done_so_far]]
+            0 <= m <= q.len(), q == iter0.rest(), lines0 == old(writer).lines(),
+            iter.rest() == q.subrange(m, q.len() as int),
+            groups_ok(q, m),
+            [[L: bedgraph/loop/text_is_the_lines_of_the_groups_done]]
+            writer.lines() == bg_all(lines0, q, m),
+        ensures
+            m == q.len(),
+        decreases
+            [[L: bedgraph/loop/termination_one_group_per_iteration]]
+            q.len() - m,
+//@at /loop \{ let v = match iter\.next\(\)/ before
+    proof { assert(q.subrange(0, q.len() as int) =~= q); }
+//@at /let \(chrom, _, mut values\) =/ before
+                proof {
+                    if m < q.len() {
+                        assert(q.subrange(m, q.len() as int)[0] == q[m]);
+                        assert(q.subrange(m, q.len() as int).drop_first() =~= q.subrange(m + 1, q.len() as int));
+                    }
+                }
+//@at /let \(chrom, _, mut values\) =/ after
+                let ghost items = values.iter.rest();
+                proof { k = 0; assert(items.subrange(0, items.len() as int) =~= items); }
+//@loop 2
+                    invariant
+                        [[L: bedgraph/group/values_done_so_far]]
+                        0 <= k <= items.len(), 0 <= m < q.len(), q[m] is Ok, items == gitems(q, m), chrom == q[m]->Ok_0.0,
+                        values.iter.rest() == items.subrange(k, items.len() as int),
+                        items_ok(items, k),
+                        [[L: bedgraph/group/text_is_one_line_per_value_so_far]]
+                        writer.lines() == bg_group(bg_all(lines0, q, m), chrom, items, k),
+                    ensures
+                        k == items.len(),
+                    decreases
+                        [[L: bedgraph/group/termination_one_value_per_iteration]]
+                        items.len() - k,
+//@at /let val = match values\.iter\.next\(\)/ before
+                    proof {
+                        if k < items.len() {
+                            assert(items.subrange(k, items.len() as int)[0] == items[k]);
+                            assert(items.subrange(k, items.len() as int).drop_first() =~= items.subrange(k + 1, items.len() as int));
+                        }
+                    }
+//@loopend 2
+                    proof { k = k + 1; }
+//@loopend 1
+                proof { m = m + 1; }
+//@end
+
+// =====================================================================================================
+// (5) bigwigmerge: the input opening loops (descriptive)
+// =====================================================================================================
+/// BigWigReadOpenError
+#[verifier::external_body] #[derive(Debug)]
+pub struct OpenErr { _p: u8 }
+/// the reader `BigWigRead::open_file(name)` yields when it succeeds (deterministic file system: assumption)
+pub uninterp spec fn reader_of(name: Seq<char>) -> BigWigRead;
+/// the lines of the list file of that name, as `BufReader::lines()` yields them
+pub uninterp spec fn list_lines(name: Seq<char>) -> Seq<Result<Str, IoErr>>;
+/// an opened list file
+#[verifier::external_body]
+pub struct ListFile { _p: u8 }
+impl ListFile {
+    pub uninterp spec fn name(&self) -> Seq<char>;
+    /// `BufReader::new(list_file).lines()`, collected (the loop below reads them in order, one per iteration)
+    #[verifier::external_body]
+    pub fn read_lines(self) -> (r: Vec<Result<Str, IoErr>>) ensures r@ == list_lines(self.name()) { unimplemented!() }
+}
+#[verifier::external_body]
+pub fn io_any_err(e: &IoErr) -> AnyErr { unimplemented!() }
+/// file system + stderr as this code sees them
+#[verifier::external_body]
+pub struct World { _p: u8 }
+impl World {
+    /// names passed to BigWigRead::open_file, in order
+    pub uninterp spec fn opened(&self) -> Seq<Seq<char>>;
+    /// names passed to File::open (list files), in order
+    pub uninterp spec fn lists(&self) -> Seq<Seq<char>>;
+    pub uninterp spec fn said(&self) -> Seq<Seq<char>>;
+    #[verifier::external_body]
+    pub fn open_bigwig(&mut self, name: &Str) -> (r: Result<BigWigRead, OpenErr>)
+        ensures
+            final(self).opened() == old(self).opened().push(name@), final(self).lists() == old(self).lists(), final(self).said() == old(self).said(),
+            r matches Ok(bw) ==> bw == reader_of(name@),
+    { unimplemented!() }
+    #[verifier::external_body]
+    pub fn open_list(&mut self, name: &Str) -> (r: Result<ListFile, IoErr>)
+        ensures
+            final(self).lists() == old(self).lists().push(name@), final(self).opened() == old(self).opened(), final(self).said() == old(self).said(),
+            r matches Ok(f) ==> f.name() == name@,
+    { unimplemented!() }
+    #[verifier::external_body]
+    pub fn eprint<T>(&mut self, fmt: &'static str, args: T)
+        ensures final(self).said() == old(self).said().push(fmt@), final(self).opened() == old(self).opened(), final(self).lists() == old(self).lists(),
+    { unimplemented!() }
+}
+pub open spec fn names_of(v: Seq<Str>, n: int) -> Seq<Seq<char>> { Seq::new(n as nat, |i: int| v[i]@) }
+pub open spec fn line_names(ls: Seq<Result<Str, IoErr>>, n: int) -> Seq<Seq<char>> { Seq::new(n as nat, |i: int| ls[i]->Ok_0@) }
+/// the names on the first n list files, list by list, line by line
+pub open spec fn listed_names(lists: Seq<Str>, n: int) -> Seq<Seq<char>>
+    decreases n
+{
+    if n <= 0 { Seq::empty() } else { listed_names(lists, n - 1) + line_names(list_lines(lists[n - 1]@), list_lines(lists[n - 1]@).len() as int) }
+}
+pub open spec fn readers_of(names: Seq<Seq<char>>) -> Seq<BigWigRead> { Seq::new(names.len(), |i: int| reader_of(names[i])) }
+/// the two arguments the loops read (clap attributes dropped)
+pub struct InArgs { pub bigwig: Vec<Str>, pub list: Vec<Str> }
+
+// Carved: from `let mut bigwigs ..` up to (not including) `let nthreads ..` / `let (iter, chrom_map) ..` (whichever is first).  Frame: signature, `Ok(Some(bigwigs))`;
+// `return Ok(());` (the tool ends successfully after printing) becomes `return Ok(None);`.
+//@extract fn bigtools/src/utils/cli/bigwigmerge.rs bigwigmerge
+//@presub /\A.*?\n([ \t]*let mut bigwigs: Vec<BigWigRead<ReopenableFile>> = .*?)\n\s*(?:let nthreads = |let \(iter, chrom_map\) = ).*\Z/ => fn open_inputs(args: InArgs, env: &mut World) -> Result<Option<Vec<BigWigRead>>, AnyErr> {\n\1\n    Ok(Some(bigwigs))\n} min=1 count=1
+//@presub /Vec<BigWigRead<ReopenableFile>> = vec!\[\]/ => Vec<BigWigRead> = Vec::new() min=0
+//@presub /BufReader::new\(list_file\)\.lines\(\)/ => list_file.read_lines() min=0
+//@rule R7
+//@sub /BigWigRead::open_file\(/ => env.open_bigwig( min=0
+//@sub /File::open\(/ => env.open_list( min=0
+//@sub /eprintln!\(/ => elog!(env,  min=0
+//@sub /return Ok\(\(\)\);/ => return Ok(None); min=0
+//@sub /let name = line\?;/ => let name = match line { Ok(n__) => n__, Err(e__) => return Err(io_any_err(e__)) }; min=0
+//@ret r
+//@sig
+    ensures
+        [[L: doc/inputs/every_named_file_is_opened_in_order_b_options_first_then_the_lists_line_by_line]]
+        r matches Ok(Some(v)) ==> final(env).opened() == old(env).opened() + (names_of(args.bigwig@, args.bigwig@.len() as int) + listed_names(args.list@, args.list@.len() as int)),
+        [[L: doc/inputs/the_readers_are_those_files_in_that_order]]
+        r matches Ok(Some(v)) ==> v@ == readers_of(names_of(args.bigwig@, args.bigwig@.len() as int) + listed_names(args.list@, args.list@.len() as int)),
+        [[L: doc/inputs/every_list_file_is_opened_in_order]]
+        r matches Ok(Some(v)) ==> final(env).lists() == old(env).lists() + names_of(args.list@, args.list@.len() as int),
+        [[L: doc/inputs/success_prints_nothing_a_failed_open_prints_and_ends_the_tool_successfully]]
+        r matches Ok(Some(v)) ==> final(env).said() == old(env).said(),
+        r matches Ok(None) ==> final(env).said().len() == old(env).said().len() + 1,
+//@open
+    let ghost o0 = env.opened();
+    let ghost exp: Seq<Seq<char>> = Seq::empty();
+//@loop 1
+        invariant
+            [[L: doc/inputs/loop_b/opened_so_far]]
+            o0 == old(env).opened(), env.lists() == old(env).lists(), env.said() == old(env).said(),
+            exp == names_of(args.bigwig@, i__1 as int),
+            env.opened() == o0 + exp, bigwigs@ == readers_of(exp),
+//@loopend 1
+        proof {
+            let e2 = exp.push(name@);
+            assert(e2 =~= names_of(args.bigwig@, i__1 + 1));
+            assert(o0 + e2 =~= (o0 + exp).push(name@));
+            assert(readers_of(e2) =~= readers_of(exp).push(reader_of(name@)));
+            exp = e2;
+        }
+//@at /for i__2 in / before
+    let ghost nb = names_of(args.bigwig@, args.bigwig@.len() as int);
+    proof { assert(old(env).lists() + names_of(args.list@, 0) =~= old(env).lists()); assert(nb + listed_names(args.list@, 0) =~= nb); }
+//@loop 2
+        invariant
+            [[L: doc/inputs/loop_l/lists_done_so_far]]
+            o0 == old(env).opened(), env.said() == old(env).said(), nb == names_of(args.bigwig@, args.bigwig@.len() as int),
+            env.lists() == old(env).lists() + names_of(args.list@, i__2 as int),
+            exp == nb + listed_names(args.list@, i__2 as int),
+            env.opened() == o0 + exp, bigwigs@ == readers_of(exp),
+//@at /for i__3 in / before
+        let ghost ll = list_lines(list@);
+        let ghost exp0 = exp;
+        proof {
+            assert(env.lists() =~= old(env).lists() + names_of(args.list@, i__2 + 1));
+            assert(exp0 + line_names(ll, 0) =~= exp0);
+        }
+//@loop 3
+            invariant
+                [[L: doc/inputs/loop_l/lines_done_so_far]]
+                o0 == old(env).opened(), env.said() == old(env).said(), ll == list_lines(list@), lines@ == ll,
+                env.lists() == old(env).lists() + names_of(args.list@, i__2 + 1),
+                forall|k: int| 0 <= k < i__3 ==> (#[trigger] ll[k]) is Ok,
+                exp == exp0 + line_names(ll, i__3 as int),
+                env.opened() == o0 + exp, bigwigs@ == readers_of(exp),
+//@loopend 3
+            proof {
+                let e2 = exp.push(name@);
+                assert(e2 =~= exp0 + line_names(ll, i__3 + 1));
+                assert(o0 + e2 =~= (o0 + exp).push(name@));
+                assert(readers_of(e2) =~= readers_of(exp).push(reader_of(name@)));
+                exp = e2;
+            }
+//@loopend 2
+        proof {
+            assert(exp =~= nb + listed_names(args.list@, i__2 + 1));
+        }
+//@end
+
+// =====================================================================================================
+// (6) bigwigmerge: the call of get_merged_vals (which option goes where)
+// =====================================================================================================
+impl GroupIter {
+    /// the (threshold, adjust, clip) every group of this iterator is merged with (captured by the closure of (2b-ii))
+    pub uninterp spec fn opts(&self) -> (f32, Option<f32>, Option<f32>);
+    /// the `max_zooms` the file-descriptor budget of (2c) was computed for
+    pub uninterp spec fn zooms(&self) -> usize;
+}
+// signature cut from /repo (parameter order!), body skipped: its parts are (2a), (2b), (2c); ASSUMED here only
+// that the options of the groups are the ones passed in (the `move` closure captures them)
+//@extract fn bigtools/src/utils/cli/bigwigmerge.rs get_merged_vals
+//@skipbody
+//@sub /Vec<BigWigRead<ReopenableFile>>/ => Vec<BigWigRead> min=1
+//@sub /impl Iterator<Item = Result<\(String, u32, MergingValues\), MergingValuesError>>/ => GroupIter min=1
+//@sub /HashMap<String, u32>/ => HashMap min=1
+//@ret r
+//@sig
+    ensures r matches Ok(t) ==> t.0.opts() == (threshold, adjust, clip) && t.0.zooms() == max_zooms,
+//@end
+/// the arguments the statement reads (clap attributes dropped)
+pub struct MergeOpts { pub threshold: f32, pub adjust: Option<f32>, pub clip: Option<f32> }
+//@extract fn bigtools/src/utils/cli/bigwigmerge.rs bigwigmerge
+//@presub /\A.*?\n([ \t]*let \(iter, chrom_map\) = get_merged_vals\([^;]*;)\n.*\Z/ => fn call_merge(args: MergeOpts, bigwigs: Vec<BigWigRead>) -> Result<(GroupIter, HashMap), AnyErr> {\n\1\n    Ok((iter, chrom_map))\n} min=1 count=1
+//@sub /(get_merged_vals\([^;]*\))\?;/ => (match \1 { Ok(v__) => v__, Err(e__) => return Err(any_err(e__)) }); min=0
+//@ret r
+//@sig
+    ensures
+        [[L: call/threshold_adjust_clip_reach_the_merge_each_in_its_place]]
+        r matches Ok(t) ==> t.0.opts() == (args.threshold, args.adjust, args.clip),
+        [[L: call/at_most_10_zoom_levels_are_budgeted_for]]
+        r matches Ok(t) ==> t.0.zooms() <= 10,
+//@end
 
 } // verus!
 fn main() {}
